@@ -186,7 +186,7 @@ uint32_t Wave_File::parse_chunk(const uint8_t *fdata)
 			}
 			break;
 	}
-	return chunksize;
+	return chunksize + 8;
 }
 
 
